@@ -932,6 +932,82 @@ func longCases() []run.Case {
 	return cases
 }
 
+// bigCases: messages whose length and fragment offsets do not fit in 16 bits (the 24-bit header fields use
+// their top byte): a certificate chain of 64 KiB and more. Receiver: every listed arrival order of the
+// fragments of one such message through the real buffer; sender: the real fragmenter at two MTUs.
+func bigCases() []run.Case {
+	var cases []run.Case
+	for _, L := range []int{65535, 65536, 65537, 65792, 131071, 131072, 200000} {
+		for _, flen := range []int{16000, 1100} {
+			for _, order := range []string{"forward", "reverse", "tail-first", "head-twice"} {
+				L, flen, order := L, flen, order
+				cases = append(cases, run.Case{ID: fmt.Sprintf("big/rx/L%d/frag%d/%s", L, flen, order), Run: func(t *testing.T) run.Outcome {
+					o := run.Outcome{NonTrivial: true, Class: "big-message"}
+					body := make([]byte, L)
+					for i := range body {
+						body[i] = byte(i*7 + i>>8 + i>>16)
+					}
+					m := Msg{Seq: 0, Typ: 11, Body: body}
+					var offs []int
+					for off := 0; off < L; off += flen {
+						offs = append(offs, off)
+					}
+					switch order {
+					case "reverse":
+						for i, j := 0, len(offs)-1; i < j; i, j = i+1, j-1 {
+							offs[i], offs[j] = offs[j], offs[i]
+						}
+					case "tail-first":
+						offs = append([]int{offs[len(offs)-1]}, offs[:len(offs)-1]...)
+					case "head-twice":
+						offs = append([]int{offs[0]}, offs...)
+					}
+					fail := func(key, f string, a ...any) run.Outcome {
+						o.Key, o.Violation = key, fmt.Sprintf("big/rx L=%d frag=%d %s: ", L, flen, order)+fmt.Sprintf(f, a...)
+						return o
+					}
+					fb := fragmentbuffer.New()
+					for i, off := range offs {
+						n := flen
+						if off+n > L {
+							n = L - off
+						}
+						o.Evals++
+						if _, _, err := fb.Push(EncodeRecord(0, uint64(i+1), EncodeFragment(m, off, n))); err != nil {
+							return fail("big-fragment-refused", "fragment [%d,%d) refused: %v", off, off+n, err)
+						}
+						out, _ := fb.Pop()
+						last := i == len(offs)-1
+						switch {
+						case out != nil && !last:
+							return fail("big-surfaced-before-complete", "a message surfaced after %d of %d fragments", i+1, len(offs))
+						case last && out == nil:
+							return fail("big-message-never-surfaces", "all %d bytes arrived (%d fragments) and no message surfaced", L, len(offs))
+						case last && !bytes.Equal(out, EncodeWhole(m)):
+							return fail("big-message-corrupted", "the surfaced message differs from the one sent (%d bytes, want %d)", len(out), 12+L)
+						}
+					}
+					if out, _ := fb.Pop(); out != nil {
+						return fail("big-message-surfaced-twice", "a second message surfaced")
+					}
+					return o
+				}})
+			}
+		}
+		for _, mtu := range []int{1200, 16000} {
+			L, mtu := L, mtu
+			cases = append(cases, run.Case{ID: fmt.Sprintf("big/tx/L%d/mtu%d", L, mtu), Run: func(t *testing.T) run.Outcome {
+				o := run.Outcome{NonTrivial: true, Evals: 1, Class: "big-message"}
+				if kind, detail, n := txOne(L, mtu); kind != "" {
+					o.Key, o.Violation = kind+"/big", fmt.Sprintf("%s: family=tx len=%d mtu=%d fragments=%d: %s", kind, L, mtu, n, detail)
+				}
+				return o
+			}})
+		}
+	}
+	return cases
+}
+
 func txCases(b bounds) []run.Case {
 	var cases []run.Case
 	for L := 0; L <= b.TxMaxLen; L++ {
@@ -979,6 +1055,7 @@ func allCases(b bounds) []run.Case {
 	cases = append(cases, txCases(b)...)
 	cases = append(cases, strayCases(b.LH, b.CapH)...)
 	cases = append(cases, longCases()...)
+	cases = append(cases, bigCases()...)
 	cases = append(cases, oneMsgCases("rx1", 0, []string{modeEach}, b.L1, b.Cap1)...)
 	cases = append(cases, oneMsgCases("rx1", 0, []string{modePair, modeAll}, b.L1, b.Cap1p)...)
 	cases = append(cases, twoMsgCases("rx2", 0, []string{modeEach}, b.L2, b.Cap2)...)
